@@ -30,6 +30,8 @@ type c7f struct {
 	trace []ref.Ev
 	notes []string
 	point func(label string)
+	expr  *eval.Expr // the expression being evaluated (for the re-entrant operator)
+	depth int
 }
 
 func (f *c7f) Get(k eval.VariableKey, s string) (eval.Value, error) {
@@ -89,6 +91,40 @@ func c7op(name string, fn ref.CustomFn) eval.Operator {
 	}
 }
 
+// c7rec is a registered operator that evaluates the very expression it is
+// part of (one level deep, with its own context and shifted bindings) while
+// the outer evaluation is still in progress: re-entrancy from the same
+// goroutine.
+func c7rec(ctx *eval.Ctx, params []eval.Value) (eval.Value, error) {
+	f, _ := ctx.VariableFetcher.(*c7f)
+	v, ok := params[0].(int64)
+	if f == nil || !ok {
+		return nil, ref.ErrBuiltin
+	}
+	if f.point != nil {
+		f.point("op:rec")
+	}
+	if f.depth >= 1 || f.expr == nil {
+		return v + 1, nil
+	}
+	inner := &c7f{idx: f.idx, avail: f.avail, point: f.point, expr: f.expr, depth: f.depth + 1, vals: make([]interface{}, len(f.vals))}
+	for i, x := range f.vals {
+		if n, isInt := x.(int64); isInt {
+			inner.vals[i] = n + 10
+		} else {
+			inner.vals[i] = x
+		}
+	}
+	res, err := f.expr.Eval(&eval.Ctx{VariableFetcher: inner})
+	f.trace = append(f.trace, ref.Ev{Name: "rec-inner", Res: res, Err: err})
+	f.trace = append(f.trace, inner.trace...)
+	if err != nil {
+		return nil, err
+	}
+	n, _ := res.(int64)
+	return v*1000 + n, nil
+}
+
 // ---- corpus ----
 
 type C7Call struct {
@@ -99,6 +135,7 @@ type C7Call struct {
 }
 
 type C7Prog struct {
+	Light bool // many scheduling points per call: explore pairs only, smaller preemption bound
 	Name  string
 	Src   string
 	Vars  []term.VarDecl
@@ -154,7 +191,13 @@ func C07Corpus() []*C7Prog {
 	deep := "(+ 1 n0 1 1 1 1 n1 1 1 1 1 1 1 1 1 1 (d n2 n3) 1)"
 	mid := "(+ 1 n0 1 1 1 1 n1 1 (d n2 n3) 1)"
 
+	reent := func(o drive.Opt, name string) *C7Prog {
+		return &C7Prog{Light: true, Name: name, Src: "(+ (rec n0) (d n1 n2) (if (= n0 n1) 0 (- n2 (rec n1))))", Vars: c7vars("n0", "n1", "n2"), Opt: o,
+			Calls: []C7Call{evalc("Eval#1", i64(1, 2, 3)...), evalc("Eval#2", i64(5, 5, 9)...), tryc("TryEval#all", nil, i64(4, 6, 8)...), insp[0]}}
+	}
 	ps := []*C7Prog{
+		reent(off, "re-entrant-operator"),
+		reent(ev(allOn, 1), "re-entrant-operator-events"),
 		{Name: "binary-custom+nary", Src: "(d (+ n0 n1 n2) (d n3 n4))", Vars: c7vars("n0", "n1", "n2", "n3", "n4"), Opt: off,
 			Calls: append([]C7Call{evalc("Eval#1", i64(1, 2, 3, 4, 5)...), evalc("Eval#2", i64(7, 7, 7, 8, 9)...),
 				evalc("Eval#fetchfail", int64(1), ref.ErrFetch, int64(3), int64(4), int64(5)),
@@ -168,12 +211,12 @@ func C07Corpus() []*C7Prog {
 				tryc("TryEval#b1-unavailable", []bool{true, false, true, true, true}, false, true, true, false, true)}, insp...)},
 		{Name: "short-circuit-chain-events", Src: "(and (or b0 (p b1)) (not (q b2 b3)) b4)", Vars: c7vars("b0", "b1", "b2", "b3", "b4"), Opt: ev(off, 1),
 			Calls: []C7Call{evalc("Eval#tttft", true, true, true, false, true), evalc("Eval#ftfft", false, true, false, false, true),
-				tryc("TryEval#b1-unavailable", []bool{true, false, true, true, true}, false, true, true, false, true), insp[0], insp[2]}},
+				tryc("TryEval#b1-unavailable", []bool{true, false, true, true, true}, false, true, true, false, true), insp[0], insp[1], insp[2]}},
 		{Name: "cond", Src: "(if (p b0) (d n1 n2) (g n3))", Vars: c7vars("b0", "n1", "n2", "n3"), Opt: allOn,
 			Calls: []C7Call{evalc("Eval#true", true, int64(1), int64(2), int64(3)), evalc("Eval#false", false, int64(1), int64(2), int64(3)),
 				tryc("TryEval#b0-unavailable", []bool{false, true, true, true}, true, int64(1), int64(2), int64(3)), insp[0]}},
 		{Name: "cond-debug", Src: "(if (p b0) (d n1 n2) (g n3))", Vars: c7vars("b0", "n1", "n2", "n3"), Opt: ev(allOn, 2),
-			Calls: []C7Call{evalc("Eval#true", true, int64(1), int64(2), int64(3)), evalc("Eval#false", false, int64(4), int64(5), int64(6)), insp[2]}},
+			Calls: []C7Call{evalc("Eval#true", true, int64(1), int64(2), int64(3)), evalc("Eval#false", false, int64(4), int64(5), int64(6)), insp[1], insp[2], insp[0]}},
 		{Name: "deep-stack(>16)", Src: deep, Vars: c7vars("n0", "n1", "n2", "n3"), Opt: off,
 			Calls: []C7Call{evalc("Eval#1", i64(100, 200, 3, 4)...), evalc("Eval#2", i64(5000, 6000, 7, 8)...),
 				tryc("TryEval#all", nil, i64(9, 9, 9, 9)...), tryc("TryEval#all-2", nil, i64(-40, -50, -6, -7)...)}},
@@ -186,7 +229,7 @@ func C07Corpus() []*C7Prog {
 			Calls: []C7Call{evalc("Eval#boom", true, int64(1), int64(2), int64(1)), evalc("Eval#div0", false, int64(1), int64(2), int64(0)),
 				evalc("Eval#ok", false, int64(1), int64(4), int64(2)), tryc("TryEval#n3-unavailable", []bool{true, true, true, false}, false, int64(1), int64(4), int64(2))}},
 		{Name: "strings-fast", Src: "(if (= s0 \"s\") (q b1 b2) (h b1 b2 b3))", Vars: c7vars("s0", "b1", "b2", "b3"), Opt: ev(allOn, 1),
-			Calls: []C7Call{evalc("Eval#s", "s", true, false, true), evalc("Eval#t", "t", true, false, true), tryc("TryEval#b2-unavailable", []bool{true, true, false, true}, "t", true, true, true)}},
+			Calls: []C7Call{evalc("Eval#s", "s", true, false, true), evalc("Eval#t", "t", true, false, true), tryc("TryEval#b2-unavailable", []bool{true, true, false, true}, "t", true, true, true), insp[1]}},
 	}
 	return ps
 }
@@ -197,6 +240,7 @@ func C7Compile(p *C7Prog) (*eval.Expr, error) {
 	for name, fn := range ref.Customs {
 		cfg.OperatorMap[name] = c7op(name, fn)
 	}
+	cfg.OperatorMap["rec"] = c7rec
 	for i, v := range p.Vars {
 		cfg.VariableKeyMap[v.Name] = drive.KeyOf(i)
 	}
@@ -237,7 +281,7 @@ func C7Do(e *eval.Expr, p *C7Prog, c C7Call, point func(string)) (out string) {
 	case "tableall":
 		return eval.DumpTable(e, false)
 	}
-	f := &c7f{idx: map[string]int{}, vals: c.Vals, avail: c.Avail, point: point}
+	f := &c7f{idx: map[string]int{}, vals: c.Vals, avail: c.Avail, point: point, expr: e}
 	for i, v := range p.Vars {
 		f.idx[v.Name] = i
 	}
@@ -283,7 +327,7 @@ func c07(r *rep.Run) {
 		depth, bound2, bound3 = 5, 5, 3
 		r.SetBudget(1800e9)
 	}
-	r.Rule = "one shared compiled Expr per corpus program (11 programs covering n-ary/binary/fast operators, cond, short-circuit chains, stack classes 8/16/large, large-list builtins, failures; events off/ReportEvent/Debug). (1) every sequential history of calls {Eval x bindings, TryEval x splits, Dump, DumpTable(skip/all)} up to the depth bound; (2) every interleaving of 2 threads x 1 call (all ordered pairs of evaluation calls), 2 threads x 2 calls and 3 threads x 1 call (all triples), each up to the stated preemption bound (iterative context bounding; executions always run to completion) under a cooperative scheduler whose points are the fetcher's Get/Cached, registered-operator entry, and call begin/end. Invariant after every call: the public view of the program (Dump + full DumpTable) is unchanged (changes of the reflective deep hash of the Expr are counted and reported, not judged: scratch state may live there); oracle per call: outcome (value, error, ordered fetch/operator trace, argument-buffer stability across a yield) equals the outcome of the same call in isolation on a freshly compiled program. (3) auxiliary: the same call menus free-running under the Go race detector. non-trivial = schedules with at least one context switch inside a call"
+	r.Rule = "one shared compiled Expr per corpus program (13 programs covering a re-entrant operator that evaluates its own expression, n-ary/binary/fast operators, cond, short-circuit chains, stack classes 8/16/large, large-list builtins, failures; events off/ReportEvent/Debug). (1) every sequential history of calls {Eval x bindings, TryEval x splits, Dump, DumpTable(skip/all)} up to the depth bound; (2) every interleaving of 2 threads x 1 call (all ordered pairs of evaluation calls), 2 threads x 2 calls and 3 threads x 1 call (all triples), each up to the stated preemption bound (iterative context bounding; executions always run to completion) under a cooperative scheduler whose points are the fetcher's Get/Cached, registered-operator entry, and call begin/end. Invariant after every call: the public view of the program (Dump + full DumpTable) is unchanged (changes of the reflective deep hash of the Expr are counted and reported, not judged: scratch state may live there); oracle per call: outcome (value, error, ordered fetch/operator trace, argument-buffer stability across a yield) equals the outcome of the same call in isolation on a freshly compiled program. (3) auxiliary: the same call menus free-running under the Go race detector. non-trivial = schedules with at least one context switch inside a call"
 	r.Assume = []string{"scheduling granularity is the environment callback (fetcher, registered operator), not the machine instruction; state shared between calls with no callback in between is caught by the deep-dump invariant and the race pass only",
 		"weak-memory effects are outside a cooperative scheduler (race detector pass is the backstop)"}
 	progs := C07Corpus()
@@ -385,6 +429,16 @@ func c07(r *rep.Run) {
 				evs = append(evs, ci)
 			}
 		}
+		if p.Light {
+			for _, a := range evs {
+				for _, b := range evs {
+					if a <= b {
+						sjobs = append(sjobs, sjob{pi, [][]int{{a}, {b}}, 1, "2x1-light"})
+					}
+				}
+			}
+			continue
+		}
 		for _, a := range evs {
 			for _, b := range evs {
 				sjobs = append(sjobs, sjob{pi, [][]int{{a}, {b}}, bound2, "2x1"})
@@ -399,9 +453,13 @@ func c07(r *rep.Run) {
 		if len(evs) >= 2 {
 			sjobs = append(sjobs, sjob{pi, [][]int{{evs[0], evs[1]}, {evs[1], evs[0]}}, bound3, "2x2"})
 		}
-		for _, a := range evs {
-			for _, b := range evs {
-				for _, c := range evs {
+		evs3 := evs
+		if !r.Thorough() && len(evs3) > 3 {
+			evs3 = evs3[:3]
+		}
+		for _, a := range evs3 {
+			for _, b := range evs3 {
+				for _, c := range evs3 {
 					if !r.Thorough() && !(a <= b && b <= c) {
 						continue // quick: unordered triples (thread ids are symmetric)
 					}
